@@ -1186,6 +1186,14 @@ static void DecodeIntelDx(tLayoutCtx* pLayoutCtx) {
     tStrComp* pArg;
     Boolean   OK;
 
+    /* the callers only provide layout functions for segments made of bytes
+       or 16-bit words: */
+
+    if (!pLayoutCtx->Replicate) {
+        WrError(ErrNum_InvSegment);
+        return;
+    }
+
     pLayoutCtx->DSFlag       = DSNone;
     pLayoutCtx->FullWordSize = Grans[ActPC];
     pLayoutCtx->ElemsPerFullWord
